@@ -107,19 +107,18 @@ fn seq_pass_main(input: &[u8]) -> i32 {
 fn configure_and_run(argv: &[String]) -> (i32, bool) {
     let mut full: Vec<String> = vec!["fastpasta".to_string()];
     full.extend(argv.iter().cloned());
-    let cfg = match Cfg::try_parse_from(full) {
-        Ok(c) => c,
-        Err(e) => {
-            let _ = e.print();
-            return (e.exit_code(), true);
-        }
-    };
-    if let Err(e) = cfg.validate_args() {
+    // clap itself ends the process on a malformed command line: find that out first (same parser) ...
+    if let Err(e) = Cfg::try_parse_from(full.clone()) {
+        let _ = e.print();
+        return (e.exit_code(), true);
+    }
+    // ... then the real `init_config()` (parse, validate, custom checks, CONFIG) through the guarded
+    // process-arguments seam, handled as `init::run` handles it
+    fpsim_rt::set_process_args(full);
+    if let Err(e) = fastpasta::config::init_config() {
         eprintln!("{e}");
         return (1, true);
     }
-    cfg.handle_custom_checks();
-    fastpasta::config::CONFIG.set(cfg).expect("CONFIG already set");
     fastpasta::util::lib::init_error_logger(Cfg::global());
     if Cfg::global().generate_custom_checks_toml_enabled() {
         return (0, false);
@@ -192,5 +191,6 @@ pub fn child_main(spec: &ExecSpec, argv: &[String], input_id: Option<(u64, u64)>
             input_bytes_after_stop: fpsim_rt::io::input_bytes_after_stop(),
         },
         wall_us: 0,
+        cwd_files: Vec::new(),
     }
 }
